@@ -44,7 +44,7 @@ pub fn response() -> impl Strategy<Value = (Vec<B>, Vec<RespDatum>)> {
 pub fn succeeding_plans(msg: &Msg) -> BoxedStrategy<Vec<UnitPlan>> {
     let n = msg.units.len();
     proptest::collection::vec(response(), n)
-        .prop_map(|rs| rs.into_iter().map(|(headers, respond)| UnitPlan { pulls: vec![], greedy: true, headers, respond, fail: None }).collect())
+        .prop_map(|rs| rs.into_iter().map(|(headers, respond)| UnitPlan { pulls: vec![], greedy: true, headers, respond, fail: None, swallow: false }).collect())
         .boxed()
 }
 
